@@ -843,6 +843,9 @@ func (h cachedHistogram) ValueBucket(
 	)
 
 	return reportSamplesFunc(func(value int64) {
+		// n.b. Work on a copy: the handle may be used by several goroutines at
+		//      the same time (overlapping report passes over one histogram).
+		m := m
 		m.Value.Count = value
 		verifhook.At("m3b_set")
 		rep.reportCopyMetric(m, size, bucket, bucketID)
@@ -875,6 +878,9 @@ func (h cachedHistogram) DurationBucket(
 	)
 
 	return reportSamplesFunc(func(value int64) {
+		// n.b. Work on a copy: the handle may be used by several goroutines at
+		//      the same time (overlapping report passes over one histogram).
+		m := m
 		m.Value.Count = value
 		verifhook.At("m3b_set")
 		rep.reportCopyMetric(m, size, bucket, bucketID)
